@@ -66,5 +66,33 @@ Section Fs.
   (** a whole run: one callback invocation per iteration *)
   Definition run_writes (filename : path) (texts : list (list (list A))) : list fsop :=
     flat_map (write_chkpt_ops filename) texts.
+  (** faults (a system call fails and the process goes on): the open of the temporary fails - the
+      stream is bad, nothing is written, closed or renamed; or a write, the close or the rename
+      fails after [written] reached the temporary - the stream test after close() is false (or the
+      rename itself did nothing) and the final name is not touched.  The pieces that reach the
+      temporary in that case are whatever the stream buffer managed to write: any list. *)
+  Inductive outcome :=
+  | Completes (chunks : list (list A))
+  | OpenFails
+  | Incomplete (written : list (list A)).
+
+  Definition invocation_ops (filename : path) (o : outcome) : list fsop :=
+    match o with
+    | Completes chunks => write_chkpt_ops filename chunks
+    | OpenFails => []
+    | Incomplete written => OpOpen (tmp_of filename) :: map (OpWrite (tmp_of filename)) written ++ [OpClose (tmp_of filename)]
+    end.
+
+  Definition run_outcomes (filename : path) (os : list outcome) : list fsop :=
+    flat_map (invocation_ops filename) os.
+
+  (** the text of the last invocation that completed, if any *)
+  Fixpoint last_completed (os : list outcome) (acc : option (list A)) : option (list A) :=
+    match os with
+    | [] => acc
+    | Completes chunks :: os' => last_completed os' (Some (List.concat chunks))
+    | _ :: os' => last_completed os' acc
+    end.
 End Fs.
 Arguments OpOpen {A}. Arguments OpWrite {A}. Arguments OpClose {A}. Arguments OpRename {A}.
+Arguments Completes {A}. Arguments OpenFails {A}. Arguments Incomplete {A}.
